@@ -69,9 +69,23 @@ def gen(seed, idx, tier):
     kind = str(r.choice(["nativeccd_off", "other_cone", "other_solver", "other_jacobian", "sleep", "broadphase", "same_model_other_nworld",
                          "batched_fields", "warn_overflow_off", "random", "multiccd_off", "tiny_caps", "same_model_flag_toggle",
                          "same_model_flag_toggle", "same_model_other_batch", "same_model_other_option", "same_shape_other_joints"]))
+    if j == 0:
+      # the first polluter is chosen to collide with the target where process-global state has been under-keyed before: the same model with
+      # the collision-dispatch flags flipped, and (for a target with per-world parameters) the same fields batched for fewer worlds
+      rf = _rng.gen("c36first", seed, idx).random()
+      if target.get("batch") and rf < 0.6:
+        kind = "same_model_fewer_worlds_batched"
+      elif rf < 0.35:
+        kind = "same_model_ccd_flag_toggle"
     dims.append(kind)
     t_opt = target["model"]["opt"]
-    if kind == "nativeccd_off":
+    if kind == "same_model_ccd_flag_toggle":
+      flip = int(_rng.gen("c36flip", seed, idx).choice([131072, 131072, 524288, 131072 | 524288]))  # NATIVECCD, MULTICCD
+      p = dict(target, model=dict(target["model"], opt=dict(t_opt, disableflags=int(t_opt.get("disableflags", 0)) ^ flip)))
+    elif kind == "same_model_fewer_worlds_batched":
+      nw = int(_rng.gen("c36nw", seed, idx).integers(1, max(2, target["nworld"])))
+      p = dict(target, nworld=nw, batch={k: nw for k in target["batch"]}, batch_factor_seed=int(r.integers(1 << 30)), init=dict(target["init"], seed=int(r.integers(1 << 30))))
+    elif kind == "nativeccd_off":
       p = _prog(seed, f"P{idx}.{j}", features={"boxes": True, "plane": True, "dense_contacts": True, "margin": False}, force={"opt": {"disableflags": 131072}}, curated_p=0.0)
     elif kind == "multiccd_off":
       p = _prog(seed, f"P{idx}.{j}", features=feats, force={"opt": {"disableflags": 524288}}, curated_p=0.0)
